@@ -227,56 +227,65 @@ def last_node(res, nid, st, pred):
     return ns[-1] if ns else None
 
 
+def canon_text(e, frame, keep=()):
+    """spelling of an expression after substitution of single-definition locals, aliases and parameters of inlined frames"""
+    from .norm import FrameEnv, subst
+    return ast.unparse(subst(e, FrameEnv(frame), keep=tuple(keep))).replace(' ', '')
+
+
 def scan_shape(g, list_attr):
     """K14: `i = 0; while i < len(self.<list_attr>): ...` -- every path through the body does exactly one of
     {remove element i, i += 1}.  returns list of problems (node|None, message); empty list = ok.
-    Also returns the loop head cond node (or None)."""
+    Also returns the loop head cond node (or None).  Expressions are compared in canonical spelling (canon_text), so a local alias of
+    the list, an unpacked entry or a helper that serves one index do not change the verdict."""
     problems = []
     heads = []
     for n in g.nodes.values():
         if n.kind == 'cond' and isinstance(n.ast, ast.Compare) and len(n.ast.ops) == 1:
             t = n.ast
             l, r = t.left, t.comparators[0]
-            if isinstance(t.ops[0], ast.Lt) and isinstance(l, ast.Name) and ast.unparse(r) == f'len(self.{list_attr})':
-                heads.append((n, l.id))
-            elif isinstance(t.ops[0], ast.Gt) and isinstance(r, ast.Name) and ast.unparse(l) == f'len(self.{list_attr})':
-                heads.append((n, r.id))
+            if isinstance(t.ops[0], (ast.Lt, ast.Gt)):
+                if isinstance(t.ops[0], ast.Gt):
+                    l, r = r, l
+                if isinstance(l, ast.Name) and canon_text(r, n.frame, keep=(l.id,)) == f'len(self.{list_attr})':
+                    heads.append((n, l.id))
     if len(heads) != 1:
         return [(None, f'expected one index scan `while i < len(self.{list_attr})`, found {len(heads)}')], None
     head, iv = heads[0]
     # initialisation: the definition of the index reaching the loop is the constant 0
     inits = [n for n in g.nodes.values() if n.kind == 'stmt' and isinstance(n.ast, ast.Assign) and n.frame is head.frame
-             and any(isinstance(t, ast.Name) and t.id == iv for t in n.ast.targets)]
+             and any(isinstance(t, ast.Name) and t.id == iv for t in n.ast.targets)
+             and not any(isinstance(x, ast.Name) and x.id == iv for x in ast.walk(n.ast.value))]
     if len(inits) != 1 or not (isinstance(inits[0].ast.value, ast.Constant) and inits[0].ast.value.value == 0) \
             or not g.dominated_by(head.id, {inits[0].id}):
         problems.append((inits[0] if inits else head, f'the scan over {list_attr} does not start at index 0'))
+    L = f'self.{list_attr}'
 
     def effect(n):
         a = n.ast
-        if n.kind != 'stmt' or n.frame is not head.frame:
-            # effects inside inlined callees on the scanned list are unexpected
-            if n.kind == 'stmt' and a is not None and f'self.{list_attr}.' in ast.unparse(a) and any(
-                    x in ast.unparse(a) for x in ('.pop(', '.remove(', '.insert(', '.append(', '.clear(')):
-                return 'other'
+        if n.kind != 'stmt' or a is None:
             return None
-        if isinstance(a, ast.AugAssign) and isinstance(a.target, ast.Name) and a.target.id == iv:
-            if isinstance(a.op, ast.Add) and isinstance(a.value, ast.Constant) and a.value.value == 1:
-                return 'inc'
-            return 'badinc'
-        if isinstance(a, ast.Assign) and any(isinstance(t, ast.Name) and t.id == iv for t in a.targets):
-            s = ast.unparse(a.value).replace(' ', '')
-            return 'inc' if s in (f'{iv}+1', f'1+{iv}') else 'badinc'
-        s = ast.unparse(a).replace(' ', '')
-        if s in (f'self.{list_attr}.pop({iv})', f'delself.{list_attr}[{iv}]', f'self.{list_attr}.remove(self.{list_attr}[{iv}])'):
+        if n.frame is head.frame:
+            if isinstance(a, ast.AugAssign) and isinstance(a.target, ast.Name) and a.target.id == iv:
+                if isinstance(a.op, ast.Add) and isinstance(a.value, ast.Constant) and a.value.value == 1:
+                    return 'inc'
+                return 'badinc'
+            if isinstance(a, ast.Assign) and any(isinstance(t, ast.Name) and t.id == iv for t in a.targets):
+                s = ast.unparse(a.value).replace(' ', '')
+                return 'inc' if s in (f'{iv}+1', f'1+{iv}') else 'badinc'
+        if isinstance(a, ast.Expr):
+            s = canon_text(a.value, n.frame, keep=(iv,))
+        elif isinstance(a, ast.Delete) and len(a.targets) == 1:
+            s = 'del' + canon_text(a.targets[0], n.frame, keep=(iv,))
+        else:
+            return None
+        if s in (f'{L}.pop({iv})', f'del{L}[{iv}]', f'{L}.remove({L}[{iv}])'):
             return 'rm'
-        if f'self.{list_attr}.pop(' in s or f'self.{list_attr}.remove(' in s or f'delself.{list_attr}' in s \
-                or f'self.{list_attr}.insert(' in s or f'self.{list_attr}.clear(' in s:
+        if f'{L}.pop(' in s or f'{L}.remove(' in s or f'del{L}' in s or f'{L}.insert(' in s or f'{L}.clear(' in s:
             return 'other'
         return None
 
     starts = [m for l, m in g.succ[head.id] if l == 'T']
-    # the loop "head" for back edges is the while join node that precedes the first cond of the test
-    back = {p for _, p in g.pred[head.id]} | {head.id}
     paths = []
 
     def dfs(n, seen, effs):
